@@ -103,7 +103,7 @@ def main():
         },
         "engines": [{"name": "vf", "path": "vf/", "serves_properties": [c["property_id"] for c in checks],
                      "kind_free_text": "runtime monitors: generated workloads on the real code, recorded tapes/histories, offline oracles, "
-                                       "sys.monitoring line scheduler, await-point scheduler, crash injector, fault masks"}],
+                                       "sys.monitoring line scheduler (switch points also after call instructions), await-point scheduler, signal-handler re-entrancy explorer (sys.monitoring INSTRUCTION/PY_START events), crash injector, fault masks"}],
         "checks": checks,
         "not_applicable": na,
         "notes": "Exit codes: 0 held on what was observed, 1 VIOLATION, 2 INCONCLUSIVE (watchdog / reach counter). KNOWN_FINDINGS.json lists genuine "
